@@ -16,6 +16,30 @@ CHECKS = {
    technique="stateless deviation-bounded DFS over all answer orders, short-read lengths, injected errors, log growth and Stop/cancel instants on the real Fetcher/Scanner with a gated LogClient under virtual time, plus a free-running race-detector pass",
    text="For every scenario (tree size 0..5 (thorough 7), every [start,end) incl. end=0 and end>size, batch 1-3, 1-3 parallel fetchers, matcher workers/buffer/kind, one-shot or continuous with growth steps) every choice vector within the deviation bound (quick 2, thorough 3) is executed to completion: which pending GetRawEntries/GetSTH is answered next and with what (full, each short length, 429, 500, network error), when the log grows, and Stop/cancel at any decision point. Oracle on the recorded deliveries: exactly the range, each index once, the log's bytes, right callback, no request outside the range, termination, continuous mode catches up after growth.",
    note="Interleavings at the granularity of LogClient calls; accesses in between are covered by the free-running race pass (not exhaustive). Back-off jitter is owned for continuous scenarios by seeding math/rand per execution and running them one at a time. Zero-length answers and non-positive batch/worker counts are not generated."),
+ "C02": dict(level="exploration", engine="enum", design="5/C02",
+   technique="bounded-exhaustive enumeration of chain perturbations x admission options on ValidateChain and both submission endpoints, against an oracle computed from certificate-template metadata",
+   text="Every submitted sequence within 1 (thorough: 2) perturbations (drop, swap, duplicate, insert, impostor, non-CA, renamed twin, forged signature, garbage, root present/absent) of every valid path (length 1-4) of a ~200-certificate hierarchy (4 roots, cross-signed and two-level intermediates, pre-issuer, mixed P-256/P-384/RSA/Ed25519), crossed with probe option sets, plus the full admission-option product (NotAfter window incl. +-1 s/ns boundaries, expired/unexpired at three clocks, CA-only, EKU, forbidden extensions) on unperturbed chains, through ctfe.ValidateChain + IsPrecertificate and add-chain / add-pre-chain of a real front end. Accept <=> the statement's predicate; returned path and queued leaf = submitted certificates in order + pool root.",
+   note="Trusts ref/pki + ref/der builders and Go std crypto for signing. Assumes pool roots are CAs, no anyEKU leaf, byte-exact name matching, key identifiers are hints only. One recorded known finding (a pool root followed by its own cross-certificate is refused)."),
+ "C04": dict(level="exploration", engine="enum", design="5/C04",
+   technique="bounded-exhaustive boundary-value products and a systematic mutation family on the real codec and its callers, compared with an independent hand-written RFC 6962 codec",
+   text="Every value of the per-field boundary alphabets of every RFC 6962 s3 structure (timestamps, extension/signature lengths 0..65536, cert/TBS lengths across the 1/2/3-byte boundaries incl. 2^24-1, both entry types, all 65536 algorithm codes, chains of 0/1/3, SCT-list totals around 65535) is encoded by the library and by ref/ct6962; every valid encoding x {every prefix, trailing byte, every length +-1 bare and compensated, every type/version code} is decoded by tls.Unmarshal and by every complete-parse API (RawLogEntryFromLeaf, LogEntryFromLeaf, ExtractSCT, ParseSCTsFromSCTList, ParseCertificate's SCT extension, ToSignedTreeHead, ToSignedCertificateTimestamp, base64/JSON methods); signature inputs, leaf hash, verifiers and the JSON API messages are compared with hand-written RFC forms.",
+   note="Trusted base: ref/ct6962 (pinned by hand-computed vectors) and the Go standard library. Lengths strictly between the listed boundaries are not tried."),
+ "C10": dict(level="exploration", engine="enum", design="5/C10",
+   technique="bounded-exhaustive differential enumeration (generated target type x generated input) of the forked decoder against encoding/asn1, with an independent repair-based reference for lax mode",
+   text="~2600 target types (20 leaf kinds x 16 tag-modifier sets, SEQUENCE/SET OF, nesting to depth 2 (thorough 3), field-scoped lax) are materialised for both libraries with reflect.StructOf; inputs are std-marshalled boundary values, a catalogue of documented and undocumented malformations at every TLV position plus prefixes and byte perturbations (thorough: pairs), and all strings of <=4/5 bytes over a 12-symbol alphabet. Strict fork == encoding/asn1 in verdict, value and remainder; lax contains strict identically; lax == encoding/asn1 on the input after an independent repair of exactly the three documented malformations at every nesting level; canonical DER re-marshals byte-identically; no panic; length bombs are allocation-bounded.",
+   note="encoding/asn1 of the default toolchain (go1.23.5, GOTOOLCHAIN=local) is the strict oracle. The fork's documented strict-mode difference list is read as empty apart from error text. Targets are non-nil pointers."),
+ "C15": dict(level="exploration", engine="enum", design="5/C15",
+   technique="deviation-bounded exhaustive configuration enumeration with label-carried ground truth, validated as Go value / binary / text proto, plus real SetUpInstance runs along backend growth histories",
+   text="From five valid baselines (regular, read-only, mirror, frozen, external storage) every configuration differing in <=2 (thorough <=3) of 20 fields over alphabets of absent/empty/negative/duplicate/odd values, and every small LogMultiConfig shape (backends/log sets absent, empty, duplicate, undefined), is validated by ValidateLogConfig(s)/ValidateLogMultiConfig as a Go value and after binary and text round trips through the real file loaders; accept <=> the statement's rule list over the alphabet labels, never a panic. Every accepted non-external configuration is built with the real SetUpInstance: add endpoints <=> not mirror and not read-only, a frozen log serves exactly its STH as the backend grows, a mirror never exceeds its backend tree.",
+   note="External-storage instances are never opened (validation only). Values the statement leaves open (log_id 0, empty window, unknown backend enum, mysql:// with empty DSN, absent sub-messages) are held to no-panic only."),
+ "C18": dict(level="exploration", engine="enum", design="5/C18",
+   technique="bounded-exhaustive enumeration of windows x boundary instants x shard lists against an interval reference model, plus end-to-end routing into real per-shard front ends",
+   text="Every (start, limit) window over {absent, T, T+1ns, T+0.5s, T+1s, T+10s} at three anchors (incl. negative proto seconds and the 2049/2050 switch) and Timestamp corner cases, every instant within +-1 ns / +-1 s of a bound (whole seconds also as real certificates), and every shard list of 1..3 (thorough 4) shards is run through the server's config conversion and NotAfter admission, the temporal client's construction and IndexByDate, and the log-list filter; inside(t) <=> start <= t < limit for all three; routing <=> admission for every (shard, instant), also end to end through TemporalLogClient.AddChain into one real front end per shard; list construction accepted <=> contiguous, ordered, not extending an unbounded side.",
+   note="Admission and routing are only reachable at whole-second NotAfter (DER times). Empty windows (start == limit) and server-side inverted windows are treated as undetermined by the statement (must admit/choose nothing)."),
+ "C17": dict(level="exploration", engine="gate", design="5/C17",
+   technique="stateless deviation-bounded DFS over answer orders, late answers and caller cancellation of the real GetSCTs group races with a gated Submitter under virtual time, over every forced session order and per-log outcome; plus a free-running race-detector pass",
+   text="Scenario = policy (Chrome with 2+2 and 1+2 logs, Apple with 3) x base minimum 2/3 (via the real LogsByGroup on certificates of two lifetimes) x every session order of every group forced through the public weight API x every per-log outcome in {SCT, error, hang}; per scenario every choice vector within the deviation bound (quick 1, thorough 2) over which pending submission is answered next, logs answering late and caller cancellation. Oracle from the recorded submissions: success => returned SCTs from distinct logs that issued them, no log asked twice, every policy group satisfied (independent reference); enough willing logs and no cancel => success; always terminates; prompt return after cancel. The race pass runs concurrent AddChain x RefreshRoots, GetSCTs x SetLogWeight(s), and Proxy submissions x log-list refreshes under the race detector.",
+   note="Session combinations in which two group races try the same log at the same virtual instant are excluded (the winner is decided between two gate-free steps, which this engine does not enumerate). The race pass is schedule-insensitive for the accesses it executes but not exhaustive. Distributor-level log filtering is covered by C18's Compatible checks and the distributor part of this check."),
 }
 PENDING_REASON = "check not built yet in this round (design in DESIGN.md section 5); not claimed until its machinery exists and passes on the unchanged tree"
 checks, na = [], []
